@@ -595,6 +595,92 @@ fn handle_tables(o: &mut Out, dir: &str) {
     o.put("status", "tables_done");
 }
 
+// ------------------------------------------------------------------------------------------
+// Real sources: every item annotated with one of the three macros in a file is expanded.
+
+struct MacroItems {
+    found: Vec<(String, TS, syn::Item)>, // macro kind, its arguments, the item as the macro receives it
+}
+
+fn macro_kind(a: &syn::Attribute) -> Option<&'static str> {
+    let last = a.path().segments.last()?.ident.to_string();
+    let first = a.path().segments.first()?.ident.to_string();
+    if a.path().segments.len() > 2 || (a.path().segments.len() == 2 && first != "sylvia") {
+        return None;
+    }
+    match last.as_str() {
+        "contract" => Some("contract"),
+        "interface" => Some("interface"),
+        "entry_points" => Some("entry_points"),
+        _ => None,
+    }
+}
+
+fn macro_args(a: &syn::Attribute) -> TS {
+    match &a.meta {
+        syn::Meta::List(l) => l.tokens.clone(),
+        _ => TS::new(),
+    }
+}
+
+impl MacroItems {
+    fn consider(&mut self, attrs: &[syn::Attribute], rebuild: &dyn Fn(Vec<syn::Attribute>) -> syn::Item) {
+        for (i, a) in attrs.iter().enumerate() {
+            if let Some(kind) = macro_kind(a) {
+                // rustc expands attribute macros outermost first: the macro at position i receives the
+                // item with the attributes before it already expanded away and the later ones intact
+                let rest: Vec<syn::Attribute> = attrs
+                    .iter()
+                    .enumerate()
+                    .filter(|(j, b)| *j > i || (*j < i && macro_kind(b).is_none()))
+                    .map(|(_, b)| b.clone())
+                    .collect();
+                self.found.push((kind.to_string(), macro_args(a), rebuild(rest)));
+            }
+        }
+    }
+}
+
+impl<'ast> Visit<'ast> for MacroItems {
+    fn visit_item_impl(&mut self, i: &'ast syn::ItemImpl) {
+        let base = i.clone();
+        self.consider(&i.attrs, &|attrs| syn::Item::Impl(syn::ItemImpl { attrs, ..base.clone() }));
+    }
+    fn visit_item_trait(&mut self, i: &'ast syn::ItemTrait) {
+        let base = i.clone();
+        self.consider(&i.attrs, &|attrs| syn::Item::Trait(syn::ItemTrait { attrs, ..base.clone() }));
+    }
+}
+
+fn handle_scan(o: &mut Out, path: &str) {
+    let src = match std::fs::read_to_string(path.trim()) {
+        Ok(s) => s,
+        Err(e) => {
+            o.put("status", &format!("unreadable {}", e));
+            return;
+        }
+    };
+    let file = match syn::parse_file(&src) {
+        Ok(f) => f,
+        Err(e) => {
+            o.put("status", &format!("unparsable {}", e));
+            return;
+        }
+    };
+    let mut v = MacroItems { found: vec![] };
+    v.visit_file(&file);
+    o.put("status", "scanned");
+    o.put("n_found", &v.found.len().to_string());
+    let base_id = o.id.clone();
+    for (n, (kind, args, item)) in v.found.into_iter().enumerate() {
+        o.id = format!("{}#{}", base_id, n);
+        o.put("kind", &kind);
+        handle_expand(o, &kind, &args.to_string(), &item.to_token_stream().to_string());
+        o.put("end", "");
+    }
+    o.id = base_id;
+}
+
 #[test]
 fn verif_probe() {
     std::panic::set_hook(Box::new(|_| {}));
@@ -623,6 +709,8 @@ fn verif_probe() {
                 o.id = id;
                 if kind == "tables" {
                     handle_tables(&mut o, &item);
+                } else if kind == "scan" {
+                    handle_scan(&mut o, &item);
                 } else {
                     handle_expand(&mut o, &kind, &attr, &item);
                 }
